@@ -202,10 +202,9 @@ def rule_column(ck):
     ps = I.explore(thunk)
     where = "context::Context.__repr__"
     got = ps[0].value
-    before = sym.op("slice", CODE, None, POS, None)
-    line = sym.op("call", sym.op("attr", before, "count"), "\n")
-    start = sym.add(sym.op("call", sym.op("attr", CODE, "rfind"), "\n", 0, POS), 1)
-    tabs = sym.op("call", sym.op("attr", sym.op("slice", CODE, start, POS, None), "count"), "\t")
+    line = sym.op("count", CODE, "\n", 0, POS)
+    start = sym.add(sym.op("rfind", CODE, "\n", 0, POS), 1)
+    tabs = sym.op("count", CODE, "\t", start, POS)
     col = sym.add(sym.sub(POS, start), sym.mul(tabs, 3))
     want = sym.op("format", FN, ":", sym.add(line, 1), ":", sym.add(col, 1))
     ck.instance("repr", {"Context.__repr__": repr(got)[:300]}, fn=where)
@@ -231,7 +230,7 @@ def rule_column(ck):
     ck.instance("graphical-column", {"start_col_no": repr(vals.get("start_col_no"))[:200], "line_no": repr(vals.get("line_no"))[:120]}, fn="reports::GraphicalHandler.__call__")
     if vals.get("start_col_no") != col:
         ck.violation("reports::GraphicalHandler.__call__", f"the graphical renderer's column {vals.get('start_col_no')!r} differs from Context.__repr__'s column {col!r}", construct="GraphicalHandler column")
-    line0 = sym.op("call", sym.op("attr", sym.op("slice", CODE, None, start, None), "count"), "\n")
+    line0 = sym.op("count", CODE, "\n", 0, start)
     if vals.get("line_no") not in (line, line0):
         ck.violation("reports::GraphicalHandler.__call__", f"the graphical renderer's line {vals.get('line_no')!r} differs from Context.__repr__'s line", construct="GraphicalHandler line")
     # BareHandler prints the start position
